@@ -10,7 +10,7 @@ def build(tier):
             obs.append(trees.tree_ob("C18.a", sk, "tree", dict(base, recursive=rec, auto_ex=False, has_prefix=False), fixrev=True,
                                      timeout=400 if quick else 2400, note=" (all output placements)"))
     # C18.b stdout mode: exactly the pages the -o run writes, sorted within a directory, nothing written
-    for sk in (["S1", "S2"] if quick else ["S1", "S2", "S2b", "S3"]):
+    for sk in (["S1", "S2q"] if quick else ["S1", "S2", "S2b", "S3"]):
         for rec in (False, True):
             if sk == "S1" and rec:
                 continue
